@@ -278,25 +278,33 @@ def _run(ctx, mod, a):
     if proof_broken:
         ctx.notes.append("proof side broken; model-dependent steps may be skipped")
     ctx.proof_ok = not proof_broken
-    try:
-        mod.run(ctx, sf)
-    except Infra:
-        raise
-    except Exception:
-        raise Infra("harness crashed:\n" + traceback.format_exc())
+    crashed = []
+
+    def guarded(fn, what):
+        """The unchanged tree never makes the harness raise (checked over many seeds), so an exception that is not an
+        infrastructure problem means the code under test behaves differently: it is reported like a broken tie
+        (VIOLATION ... no-failing-input-found, traceback in the replay file) unless a concrete failing input is found."""
+        try:
+            fn(ctx, sf)
+        except Infra:
+            raise
+        except (MemoryError, OSError, subprocess.TimeoutExpired) as e:
+            raise Infra(f"{what}: {type(e).__name__}: {e}")
+        except Exception:  # noqa: BLE001
+            tb = traceback.format_exc()
+            crashed.append(f"{what} raised:\n{tb[-3000:]}")
+            print(f"  evaluation raised an exception ({what}):", tb.strip().splitlines()[-1][:300])
+
+    guarded(mod.run, "harness run")
 
     # extended search when the proof or the tie is broken and nothing failed yet
     unlisted = [f for f in ctx.failures if not known.match(pid, f["sig"])]
-    if (proof_broken or ctx.disagreements) and not unlisted and hasattr(mod, "search"):
+    if (proof_broken or ctx.disagreements or crashed) and not unlisted and hasattr(mod, "search"):
         ctx.boost = 6
         ctx.notes.append("extended failing-input search (boost 6)")
-        try:
-            mod.search(ctx, sf)
-        except Infra:
-            raise
-        except Exception:
-            raise Infra("harness crashed in search:\n" + traceback.format_exc())
+        guarded(mod.search, "extended search")
         unlisted = [f for f in ctx.failures if not known.match(pid, f["sig"])]
+    proof_broken = proof_broken + crashed[:2]
 
     # verdict
     listed = {}
